@@ -61,6 +61,10 @@ def _run_serial_job(idx):
         totals.wall_s = time.time() - t0
         totals.functions = sorted(funcs)
         totals.installed = json.loads(json.dumps(sinstall.INSTALLED, default=str))
+        try:
+            totals.concrete_samples = engine.sample_models(S, k=opts.get("concrete_samples", 2), seed=opts.get("seed", 0))
+        except BaseException:  # noqa
+            totals.concrete_samples = []
         return idx, totals, None
     except BaseException as e:  # noqa
         return idx, None, f"{type(e).__name__}: {e}\n{traceback.format_exc()}"
